@@ -46,8 +46,13 @@ def run(chk):
     inj = [r for r in rows if r["kind"] == "inject"]
 
     # ---- monitors on the implementation trace
+    seen_leak = set()
     for r in sess:
         for lk in (r["leaks"] or [])[:1]:
+            lkey = (lk["what"].split(":")[0], r["v13"])
+            if lkey in seen_leak:
+                continue   # one finding per kind of secret; the others are the same defect in other sessions
+            seen_leak.add(lkey)
             found = True
             chk.finding("conn.go processPacket / processHandshakePacket (record emitted without protection)",
                         {"monitor": "secret bytes in clear on the wire", "what": lk["what"].split(":")[0],
@@ -58,8 +63,9 @@ def run(chk):
                             r.get("ku_drop", -1), r["early"]),
                         {"variant": r["variant"], "drop": r["drop"], "post_drop": r.get("post_drop", -1),
                          "ku_drop": r.get("ku_drop", -1), "early": r["early"], "leak": lk,
-                         "how": "run the session of `variant` dropping datagram `drop`; datagram `leak.idx` contains `leak.sec`"})
-            break
+                         "how": "run the session of `variant` dropping handshake datagram `drop` / the post_drop-th datagram after "
+                                "the server's establishment / the ku_drop-th after the first UpdateKeys call; datagram `leak.idx` "
+                                "contains `leak.sec` in clear"})
     seen_lab = set()
     for r in sess:
         for l in r["labels"] or []:
@@ -70,8 +76,13 @@ def run(chk):
                 chk.finding("conn.go Write / writeApplicationData / flight generators",
                             {"monitor": "record label", "ct": l["ct"], "ht": l["ht"], "epoch": l["epoch"], "enc": l["enc"],
                              "v13": l["v13"]},
-                            "%s [variant %s, drop %d, sender %s]" % (m, r["variant"], r["drop"], l["from"]),
-                            {"variant": r["variant"], "drop": r["drop"], "early": r["early"], "label": l})
+                            "%s [variant %s, handshake drop %d, post-handshake drop %d, KeyUpdate drop %d, sender %s]" % (
+                                m, r["variant"], r["drop"], r.get("post_drop", -1), r.get("ku_drop", -1), l["from"]),
+                            {"variant": r["variant"], "drop": r["drop"], "post_drop": r.get("post_drop", -1),
+                             "ku_drop": r.get("ku_drop", -1), "early": r["early"], "label": l,
+                             "how": "session of `variant`; drop the post_drop-th datagram after the server's establishment / "
+                                    "the ku_drop-th after the first UpdateKeys call; let the retransmission timer fire; a "
+                                    "record with `label` is on the wire"})
     for r in sess:
         if r["early_ret"]:
             found = True
